@@ -79,7 +79,7 @@ void harness(void)
 		VERIF_ASSERT(dst.size == ESZ && dst.used == N && dst.count >= N,
 			     C19_OB("fresh"));
 		if (N > 0) {
-			VERIF_ASSERT(ddata != NULL && !VERIF_SAME_OBJECT(ddata, sdata) &&
+			VERIF_ASSERT(ddata != NULL && C19_DISTINCT(ddata, sdata) &&
 				     VERIF_RW_OK(ddata, N * ESZ) && ddata[k] == v,
 				     C19_OB("fresh"));
 			ddata[k] = v ^ 0xFF;
